@@ -276,6 +276,13 @@ func ruleCountVotes() *Rule {
 // freshCounter checks that the pointer argument argIdx (0-based, receiver excluded) of every
 // `go target(...)` in spawner is a local variable of spawner initialised once to the constant 1.
 func freshCounter(p *Program, rule, spawner, target string, argIdx int) []Obligation {
+	return freshCounterMode(p, rule, spawner, target, argIdx, false)
+}
+
+// freshCounterMode: with selfConditional the counter must start at 1 only if this node is a voter (0 otherwise): the
+// function is reachable for a leader that is not a voter. Without it the constant 1 is demanded (the election path is
+// entered by voters only, ELECTION-VOTERS).
+func freshCounterMode(p *Program, rule, spawner, target string, argIdx int, selfConditional bool) []Obligation {
 	sp := p.Func(spawner)
 	tg := p.Func(target)
 	if sp == nil || tg == nil {
@@ -300,14 +307,28 @@ func freshCounter(p *Program, rule, spawner, target string, argIdx int) []Obliga
 				continue
 			}
 			stores, bad := 0, ""
+			var selfTrue []*ssa.BasicBlock
+			if selfConditional {
+				selfTrue = selfVoterBlocks(p, NewRootFrame(sp), sp)
+			}
 			for _, r := range *al.Referrers() {
 				switch r := r.(type) {
 				case *ssa.Store:
 					if r.Addr == al {
 						stores++
 						c, ok := r.Val.(*ssa.Const)
-						if v, ok2 := constInt(c); !ok || !ok2 || v != 1 {
-							bad = "initial value is not the constant 1 (the node's own vote/acknowledgement)"
+						v, ok2 := constInt(c)
+						switch {
+						case !selfConditional:
+							if !ok || !ok2 || v != 1 {
+								bad = "initial value is not the constant 1 (the node's own vote/acknowledgement)"
+							}
+						case !ok || !ok2 || (v != 0 && v != 1):
+							bad = "the counter is initialised with something other than 0 or 1"
+						case v == 1 && !dominatedByAny(selfTrue, r.Block()):
+							bad = "the round counter starts at 1 — the leader's own acknowledgement — whether or not the leader is a voter: a leader demoted to non-voter (AddServer(self, false)) confirms its leadership, renews its lease and verifies reads with one voter's reply fewer than a quorum"
+						case v == 1:
+							stores-- // the conditional 1 comes on top of the initial 0
 						}
 						if r.Block() != al.Block() {
 							// initialised in a different block than the declaration: could be inside a loop
@@ -331,6 +352,9 @@ func freshCounter(p *Program, rule, spawner, target string, argIdx int) []Obliga
 				ob.Verdict, ob.Detail = Violated, bad
 			} else {
 				ob.Verdict, ob.Detail = Discharged, "fresh local initialised to 1, handed only to this round's goroutines"
+				if selfConditional {
+					ob.Detail = "fresh local initialised to 1 if this node is a voter and 0 otherwise, handed only to this round's goroutines"
+				}
 			}
 			out = append(out, ob)
 		}
